@@ -275,6 +275,9 @@ class _CryptConfig:
             func = _coerce_scheme_options.get(key)
             if func:
                 value = func(value)
+        elif isinstance(value, list):
+            # don't keep a reference to the caller's list
+            value = list(value)
         return key, value
 
     def _norm_context_option(self, cat, key, value):
@@ -693,7 +696,11 @@ class _CryptConfig:
                     pass
                 else:
                     for key in sorted(kwds):
-                        yield (cat, scheme, key), kwds[key]
+                        value = kwds[key]
+                        if isinstance(value, list):
+                            # (the caller gets a list of their own, as for 'deprecated')
+                            value = list(value)
+                        yield (cat, scheme, key), value
 
 
 class CryptContext:
